@@ -42,6 +42,16 @@ sources; `type[list[int]]` (a `SubclassValue` of a generic is not a `Ty`; exclud
 -/
 namespace Pya.C13
 
+/-- The objects `Literal[...]` may hold: int, bool, str, bytes, None, enum members. -/
+inductive LitObj where
+  | int (n : Int) | bool (b : Bool) | str (s : String) | bytes (s : String) | none
+  | enum (c : Cls) (i : Nat)
+  deriving DecidableEq, Repr, Inhabited
+
+def LitObj.toObj : LitObj → Obj
+  | .int n => .int n | .bool b => .bool b | .str s => .str s | .bytes s => .bytes s | .none => .none
+  | .enum c i => .inst c i
+
 /-- Annotation expression syntax. `old` = the `typing` alias spelling (`List[int]`, `Tuple[...]`,
 `Type[...]`), otherwise the builtin / `collections.abc` class is subscripted. -/
 inductive AnnExpr where
@@ -56,7 +66,7 @@ inductive AnnExpr where
   | tupV (old : Bool) (e : AnnExpr)                 -- `tuple[e, ...]`
   | unpack (e : AnnExpr)                            -- `Unpack[e]`
   | star (e : AnnExpr)                              -- `*e`
-  | lit (os : List Obj)                             -- `Literal[o₁, …]`
+  | lit (os : List LitObj)                          -- `Literal[o₁, …]`
   | typ (old : Bool) (e : AnnExpr)                  -- `type[e]` / `Type[e]`
   | ann (e : AnnExpr) (k : Nat)                     -- `Annotated[e, m₁, …, mₖ]`
   | final (e : AnnExpr)                             -- `Final[e]`
@@ -165,7 +175,7 @@ def astEval (au : Bool) : AnnExpr → Option Res
     if au then (astEval false e).map fun r => ⟨r.ty, r.errs, true⟩
     else if e.starU then none else errAny
   | .star _ => none                             -- `_Visitor.generic_visit` :970 raises
-  | .lit os => ok (unite (os.map .known))       -- :769 all members are KnownValue
+  | .lit os => ok (unite (os.map fun o => .known o.toObj))   -- :769 all members are KnownValue
   | .typ _ e =>                                 -- :791
     (astEval false e).map fun r => ⟨mkSub r.ty, r.errs, false⟩
   | .ann e k =>                                 -- :797 `_make_annotated(_type_from_value(origin, ctx), …)`
@@ -219,8 +229,8 @@ def rtEval (au : Bool) : AnnExpr → Option Res
     (rtEval false e).map fun r => ⟨r.ty, r.errs, false⟩  --   read as a plain (nested) tuple, `__unpacked__` ignored
   | .lit os =>                                  -- :1193
     match os with
-    | [o] => ok (.known o)
-    | os => ok (unite (os.map .known))
+    | [o] => ok (.known o.toObj)
+    | os => ok (unite (os.map fun o => .known o.toObj))
   | .typ _ e =>                                 -- :1150
     (rtEval false e).map fun r => ⟨mkSub r.ty, r.errs, false⟩
   | .ann e k =>                                 -- :1177 (passes `allow_unpack` down; an unpacked origin is unsupported)
@@ -347,9 +357,8 @@ def DVal.ty : DVal → Ty
 
 /-- `itertools.zip_longest` -/
 def zipLongest {α β : Type} : List α → List β → List (Option α × Option β)
-  | [], [] => []
+  | [], bs => bs.map fun b => (none, some b)
   | a :: as, [] => (some a, none) :: zipLongest as []
-  | [], b :: bs => (none, some b) :: zipLongest [] bs
   | a :: as, b :: bs => (some a, some b) :: zipLongest as bs
 
 /-- the `args` list of `compute_parameters` (functions.py:245‥252) -/
@@ -411,7 +420,8 @@ def fromDefWith (eval : Bool → AnnExpr → Option Res) (d : DefArgs) : Option 
 
 /-- `is_positional_only_arg_name` (analysis_lib.py:130) for a function that is not a method of a
 class whose name prefixes the parameter name. -/
-def isDunderName (s : String) : Bool := s.startsWith "__" && !s.endsWith "__"
+def isDunderName (s : String) : Bool :=
+  s.toList.take 2 == ['_', '_'] && !(s.toList.reverse.take 2 == ['_', '_'])
 
 /-- the parameter as `inspect.signature` reports it -/
 structure IParam where
